@@ -211,8 +211,8 @@ class SimExternalAdapter(BaseExternalRunAdapterDecorator, SnapshottableAdapter,
 
 
 class SimRuntime(BaseRuntimeDecorator):
-    def __init__(self, world) -> None:
-        super().__init__(BasicRuntime())
+    def __init__(self, world, inner=None) -> None:
+        super().__init__(inner if inner is not None else BasicRuntime())
         self._w = world
 
     def get_internal_adapter(self, workflow):
@@ -225,6 +225,19 @@ class SimRuntime(BaseRuntimeDecorator):
                      serialized_state=None, serializer=None):
         inner = self._decorated.run_workflow(run_id, workflow, init_state, start_event=start_event,
                                              serialized_state=serialized_state, serializer=serializer)
+        q = getattr(inner, "_queues", None)
+        task = getattr(q, "complete", None)
+        if task is not None:
+            w = self._w
+
+            def _done(t, run_id=run_id):
+                if t.cancelled():
+                    w.trace.log("run-task-done", run=run_id, how="cancelled")
+                elif t.exception() is not None:
+                    w.trace.log("run-task-done", run=run_id, how="error", exc=type(t.exception()).__name__, msg=str(t.exception())[:80])
+                else:
+                    w.trace.log("run-task-done", run=run_id, how="result", res=type(t.result()).__name__)
+            task.add_done_callback(_done)
         return SimExternalAdapter(inner, self._w)
 
 
